@@ -28,7 +28,168 @@ var spNameRe = regexp.MustCompile(`sp_[A-Za-z0-9_]+`)
 var nmNameRe = regexp.MustCompile(`n[mf]_[A-Za-z0-9_]+`)
 
 // script assembles the SMT-LIB script of one obligation.
+// abstractUFStrings: every ground application of an uninterpreted string-valued function (calls through function
+// values, pure helpers, node functions, external summaries) is replaced by a fresh string constant, the same constant
+// for the same term. Congruence for these functions is lost, which only weakens the hypotheses: a goal proved on the
+// abstracted script is proved. String solvers decide word equations over constants far more readily than over terms.
+func abstractUFStrings(script string) string {
+	ufRe := regexp.MustCompile(`\(declare-fun ((?:dyn|pure|nm|nf|f)_[^ ]+) \([^)]+\) String\)`)
+	fns := map[string]bool{}
+	for _, m := range ufRe.FindAllStringSubmatch(script, -1) {
+		fns[m[1]] = true
+	}
+	if len(fns) == 0 {
+		return script
+	}
+	idx := strings.Index(script, "(assert")
+	if idx < 0 {
+		return script
+	}
+	head, body := script[:idx], script[idx:]
+	names := map[string]string{}
+	var order []string
+	var out strings.Builder
+	// single pass with an explicit stack of open-paren positions in out
+	var rewrite func(s string) string
+	rewrite = func(s string) string {
+		var sb strings.Builder
+		i := 0
+		for i < len(s) {
+			if s[i] == '"' {
+				j := i + 1
+				for j < len(s) {
+					if s[j] == '"' {
+						if j+1 < len(s) && s[j+1] == '"' {
+							j += 2
+							continue
+						}
+						break
+					}
+					j++
+				}
+				sb.WriteString(s[i : j+1])
+				i = j + 1
+				continue
+			}
+			if s[i] == '(' {
+				// find matching paren
+				depth, j := 0, i
+				inStr := false
+				for ; j < len(s); j++ {
+					c := s[j]
+					if c == '"' {
+						inStr = !inStr
+					}
+					if inStr {
+						continue
+					}
+					if c == '(' {
+						depth++
+					} else if c == ')' {
+						depth--
+						if depth == 0 {
+							break
+						}
+					}
+				}
+				inner := s[i+1 : j]
+				hd := inner
+				if k := strings.IndexAny(inner, " \n"); k >= 0 {
+					hd = inner[:k]
+				}
+				rew := "(" + rewrite(inner) + ")"
+				if fns[hd] && !boundVarRe.MatchString(rew) && !strings.Contains(rew, " x)") && !strings.Contains(rew, " x ") {
+					c, ok := names[rew]
+					if !ok {
+						c = fmt.Sprintf("ufs_%d", len(names))
+						names[rew] = c
+						order = append(order, rew)
+					}
+					sb.WriteString(c)
+				} else {
+					sb.WriteString(rew)
+				}
+				i = j + 1
+				continue
+			}
+			sb.WriteByte(s[i])
+			i++
+		}
+		return sb.String()
+	}
+	nb := rewrite(body)
+	out.WriteString(head)
+	for _, t := range order {
+		out.WriteString(fmt.Sprintf("(declare-const %s String)\n", names[t]))
+	}
+	out.WriteString(nb)
+	return out.String()
+}
+
+// script assembles the SMT-LIB script of one obligation.
 func (e *enc) script(o *Obligation, withValues []string) string {
+	return e.scriptMode(o, withValues, false)
+}
+
+var defHeadRe = regexp.MustCompile(`^\(= ([A-Za-z_][A-Za-z0-9_.!]*) `)
+
+// sliceDefs: the definitions the goal depends on, and the assumptions that speak about those symbols only.
+// Dropping assumptions is sound (the goal is proved from fewer hypotheses); it keeps hard theories out of easy goals.
+func sliceDefs(defs []string, seeds string) []bool {
+	keep := make([]bool, len(defs))
+	rel := map[string]bool{}
+	for _, id := range identRe.FindAllString(seeds, -1) {
+		rel[id] = true
+	}
+	head := make([]string, len(defs))
+	for i, d := range defs {
+		if m := defHeadRe.FindStringSubmatch(d); m != nil {
+			head[i] = m[1]
+		}
+	}
+	for changed := true; changed; {
+		changed = false
+		for i, d := range defs {
+			if keep[i] || head[i] == "" || !rel[head[i]] {
+				continue
+			}
+			keep[i] = true
+			changed = true
+			for _, id := range identRe.FindAllString(d, -1) {
+				rel[id] = true
+			}
+		}
+	}
+	// assumptions: kept when every declared constant they mention is already relevant (bound variables and function symbols aside)
+	for i, d := range defs {
+		if keep[i] || head[i] != "" && !rel[head[i]] && !strings.Contains(d, "forall") {
+			continue
+		}
+		if head[i] != "" {
+			continue
+		}
+		ok, any := true, false
+		for _, id := range identRe.FindAllString(d, -1) {
+			if isGeneratedConst(id) {
+				if rel[id] {
+					any = true
+				} else {
+					ok = false
+				}
+			}
+		}
+		if ok && any {
+			keep[i] = true
+		}
+	}
+	return keep
+}
+
+var genConstRe = regexp.MustCompile(`_[0-9]+(_B)?$`)
+
+func isGeneratedConst(id string) bool { return genConstRe.MatchString(id) }
+
+func (e *enc) scriptMode(o *Obligation, withValues []string, sliced bool) string {
 	var sb strings.Builder
 	if len(withValues) > 0 {
 		sb.WriteString("(set-option :produce-models true)\n")
@@ -45,10 +206,17 @@ func (e *enc) script(o *Obligation, withValues []string) string {
 	for _, d := range e.decls[:o.NDecl] {
 		body.WriteString(d + "\n")
 	}
-	for _, d := range e.defs[:o.NDef] {
+	var keep []bool
+	if sliced {
+		keep = sliceDefs(e.defs[:o.NDef], o.Goal+" "+o.At+" "+o.Extra)
+	}
+	for i, d := range e.defs[:o.NDef] {
+		if keep != nil && !keep[i] {
+			continue
+		}
 		body.WriteString("(assert " + d + ")\n")
 	}
-	tail := fmt.Sprintf("(assert %s)\n", o.At)
+	tail := o.Extra + fmt.Sprintf("(assert %s)\n", o.At)
 	if !o.Cover {
 		tail += fmt.Sprintf("(assert (not %s))\n", o.Goal)
 	}
@@ -315,6 +483,66 @@ func solveAll(results []*FuncResult, dir string, sec int, all bool, workers int)
 	}
 	close(ch)
 	wg.Wait()
+	// second attempt for undischarged goals: the script sliced to the goal's cone of definitions
+	var retry []int
+	for i, j := range jobs {
+		if !j.o.Cover && j.o.Result != nil && j.o.Result.Status != "unsat" && j.o.Result.Status != "error" && j.o.Goal != "false" {
+			retry = append(retry, i)
+		}
+	}
+	if len(retry) == 0 {
+		return
+	}
+	sfiles := map[int]string{}
+	afiles := map[int]string{}
+	for _, i := range retry {
+		j := jobs[i]
+		enc := j.r.Enc
+		if j.r.lemmaEncs != nil {
+			for k, lo := range j.r.Obls {
+				if lo == j.o {
+					enc = j.r.lemmaEncs[k]
+				}
+			}
+		}
+		f := strings.TrimSuffix(files[i], ".smt2") + ".sliced.smt2"
+		txt := enc.scriptMode(j.o, nil, true)
+		os.WriteFile(f, []byte(txt), 0644)
+		sfiles[i] = f
+		if a := abstractUFStrings(txt); a != txt {
+			fa := strings.TrimSuffix(files[i], ".smt2") + ".abs.smt2"
+			os.WriteFile(fa, []byte(a), 0644)
+			afiles[i] = fa
+		}
+	}
+	ch2 := make(chan int)
+	var wg2 sync.WaitGroup
+	for w := 0; w < workers; w++ {
+		wg2.Add(1)
+		go func() {
+			defer wg2.Done()
+			for i := range ch2 {
+				r := race(sfiles[i], sec, false)
+				if r.Status == "unsat" {
+					r.Output = "discharged on the script sliced to the goal's cone of definitions"
+					jobs[i].o.Result = r
+					continue
+				}
+				if fa, ok := afiles[i]; ok {
+					r := race(fa, sec, false)
+					if r.Status == "unsat" {
+						r.Output = "discharged on the sliced script with string-valued uninterpreted applications abstracted to constants"
+						jobs[i].o.Result = r
+					}
+				}
+			}
+		}()
+	}
+	for _, i := range retry {
+		ch2 <- i
+	}
+	close(ch2)
+	wg2.Wait()
 }
 
 // discharged: did the obligation pass?
